@@ -242,6 +242,10 @@ func (g *ArtGen) noise() string {
 	if n%5 == 0 {
 		// template-generated pages repeat attributes; the parser keeps every occurrence
 		dup = fmt.Sprintf(` class="zcd%d" id="zid%d" style="margin:%dpx" onclick="zod%d()"`, n, n, n%9, n)
+		if n%10 == 0 {
+			// ... and more than once
+			dup += fmt.Sprintf(` class="zce%d" id="zie%d" style="padding:%dpx" class="zcf%d" id="zif%d"`, n, n, n%7, n, n)
+		}
 	}
 	if n%7 == 3 {
 		// a page element that dresses up as the distiller's own embed placeholder
